@@ -26,6 +26,9 @@
 (*                                 returned                                *)
 (*          EndBlocked(total)      end of a run whose wrapped writer never *)
 (*                                 returns                                 *)
+(*          GPanic                 a goroutine of the diode (a producer in  *)
+(*                                 Write, the consumer, the canceller)     *)
+(*                                 panicked: never allowed                 *)
 (*          PBlocked               a producer inside Write cannot take its *)
 (*                                 next step by itself: it waits for a lock*)
 (*                                 or a condition another goroutine holds  *)
